@@ -1,5 +1,4 @@
-//go:build verif
-
+//go:build verif && verif_c02
 package excelize
 
 import (
